@@ -117,12 +117,15 @@ type Cmd struct {
 	C     int    `json:"c"`
 	T     string `json:"t,omitempty"`
 
-	Key       Item   `json:"key,omitempty"`
-	KeyExtra  Item   `json:"key_extra,omitempty"` // attributes added to the Key map of the request beyond the key schema
-	Item      Item   `json:"item,omitempty"`
-	Upd       Update `json:"upd,omitempty"`
-	Cond      *Expr  `json:"cond,omitempty"`
-	RetOnFail bool   `json:"ret_on_fail,omitempty"`
+	Key       Item     `json:"key,omitempty"`
+	KeyExtra  Item     `json:"key_extra,omitempty"` // attributes added to the Key map of the request beyond the key schema
+	Item      Item     `json:"item,omitempty"`
+	Upd       Update   `json:"upd,omitempty"`
+	Cond      *Expr    `json:"cond,omitempty"`
+	RetOnFail bool     `json:"ret_on_fail,omitempty"`
+	RetVal    string   `json:"ret_val,omitempty"` // ReturnValues other than the default of the harness (the returned attributes are then not compared)
+	NeedN     []string `json:"need_n,omitempty"`  // the condition compares these attributes with each other: executed only while the target item holds numbers under all of them
+	Proj      []string `json:"proj,omitempty"`    // ProjectionExpression of a paginated walk
 
 	Index    string `json:"index,omitempty"`
 	HashAttr string `json:"hash_attr,omitempty"` // Query: partition attribute of the addressed table/index
@@ -206,6 +209,12 @@ func (c *Cmd) String() string {
 	}
 	if c.Limit > 0 {
 		fmt.Fprintf(&sb, " limit=%d", c.Limit)
+	}
+	if c.RetVal != "" {
+		fmt.Fprintf(&sb, " return=%s", c.RetVal)
+	}
+	if len(c.Proj) > 0 {
+		fmt.Fprintf(&sb, " projection=%v", c.Proj)
 	}
 	if c.Op == "Open" || c.Op == "Resume" {
 		fmt.Fprintf(&sb, " walk=%d", c.Walk)
